@@ -77,7 +77,7 @@ def install():
 
 
 def plan(tier, seed):
-    n = 80 if tier == 'quick' else 1400
+    n = 80 if tier == 'quick' else 10000
     kinds = ['multiband_shipped', 'multiband_gen', 'mixed', 'narrow', 'align', 'align', 'multiband_gen', 'narrow',
              'p2p', 'chassis']
     return [{'idx': i, 'kind': kinds[i % len(kinds)]} for i in range(n)]
